@@ -276,4 +276,123 @@ theorem replay_reachL {s0 s : Sys St Op} {evs : List LEv} (hwf0 : s0.WF) (h0 : I
     · exfalso; rcases ha with rfl | rfl <;> cases hseg
     · rw [hsub]
 
+/-! ## The linearization point lies inside the operation's interval -/
+
+/-- thread `t` has an operation in progress after the log `evs`: its last segment parked -/
+def pendingAfter (evs : List LEv) (t : Nat) : Bool :=
+  evs.foldl (fun b ev => if ev.t = t then (match ev.fin with | .park _ => true | .ret _ => false) else b) false
+
+theorem pendingAfter_snoc (evs : List LEv) (ev : LEv) (t : Nat) :
+    pendingAfter (evs ++ [ev]) t =
+      if ev.t = t then (match ev.fin with | .park _ => true | .ret _ => false) else pendingAfter evs t := by
+  simp [pendingAfter, List.foldl_append]
+
+/-- every logged segment is the first segment of an operation exactly when its thread has no
+    operation in progress: a thread's segments come in blocks `first, resume*, …` that end with the
+    segment that returns. Hence the returning segment of an operation (its linearization point)
+    lies between its first segment (the invocation) and its response (that same segment). -/
+inductive Bracketed : List LEv → Prop
+  | nil : Bracketed []
+  | snoc {evs : List LEv} {ev : LEv} : Bracketed evs → ev.first = !(pendingAfter evs ev.t) → Bracketed (evs ++ [ev])
+
+def Blocked (th : Th Op) : Prop := th.st = .woken ∨ ∃ c, th.st = .parked c
+
+theorem blocked_thWake {th th' : Th Op} (w : ThWake th th') : Blocked th' ↔ Blocked th := by
+  rcases w with rfl | ⟨hp, rfl⟩
+  · exact Iff.rfl
+  · exact ⟨fun _ => Or.inr hp, fun _ => Or.inl rfl⟩
+
+theorem blocked_bwake (c : Nat) (th : Th Op) : Blocked (Th.bwake c th) ↔ Blocked th := by
+  unfold Th.bwake
+  split
+  · rename_i hp; exact ⟨fun _ => Or.inr ⟨_, hp⟩, fun _ => Or.inl rfl⟩
+  · exact Iff.rfl
+
+theorem bracketed_reachL {init : St} {programs : List (List Op)} {evs : List LEv} {s : Sys St Op}
+    (h : ReachL (initSys init programs) evs s) :
+    Bracketed evs ∧ ∀ t th, s.ths[t]? = some th → (pendingAfter evs t = true ↔ Blocked th) := by
+  induction h with
+  | init =>
+    refine ⟨.nil, ?_⟩
+    intro t th hth
+    simp only [initSys, List.getElem?_map] at hth
+    cases hp : programs[t]? with
+    | none => simp [hp] at hth
+    | some p =>
+      simp [hp] at hth; subst hth
+      simp only [pendingAfter, List.foldl_nil, Bool.false_eq_true, false_iff]
+      rintro (h | ⟨c, h⟩) <;> (simp only at h; split at h <;> cases h)
+  | @seg evs s s' a obs t th0 op o hprev hen hs hseg ih =>
+    obtain ⟨hb, hinv⟩ := ih
+    have hwf := hprev.reach.wf (initSys_wf init programs)
+    have r := hseg.rel hwf hen hs
+    obtain ⟨ho, _, _⟩ := isSeg_segR hseg
+    obtain ⟨th, hth, _, _, hst0, _, _, _, _⟩ := hseg.basic
+    have hev_t : (evOf s.subj t th0 op).t = t := rfl
+    have hev_fin : (evOf s.subj t th0 op).fin = (segROf s.subj th0 op).fin := rfl
+    have hev_first : (evOf s.subj t th0 op).first = decide (th0.st = .idle) := rfl
+    constructor
+    · refine .snoc hb ?_
+      rw [hev_t, hev_first]
+      have hinvt := hinv t th hth
+      rcases (isSeg_segR hseg).2.2 with hidle | hwk
+      · have hnb : ¬ Blocked th := by
+          rintro (h | ⟨c, h⟩) <;> (rw [← hst0, hidle] at h; cases h)
+        have hpa : pendingAfter evs t = false := by
+          cases hpa : pendingAfter evs t with
+          | false => rfl
+          | true => exact absurd (hinvt.1 hpa) hnb
+        simp [hpa, hidle]
+      · have hpa : pendingAfter evs t = true := hinvt.2 (Or.inl (by rw [← hst0]; exact hwk))
+        simp [hpa, hwk]
+    · intro u th' hth'
+      rw [pendingAfter_snoc, hev_t]
+      by_cases hut : u = t
+      · subst hut
+        simp only [ite_true, hev_fin]
+        have he := r.self_eq hth'
+        rw [ho, SegR.out_fin] at he
+        cases hfin : (segROf s.subj th0 op).fin with
+        | ret rv =>
+          rw [hfin] at he
+          replace he : th' = finTh (.ret rv.str) { th0 with helpers := sigHelpers (segROf s.subj th0 op).out.sigs th0.helpers } := he
+          simp only [Bool.false_eq_true, false_iff]
+          rintro (h | ⟨c, h⟩)
+          · rw [he, finTh_ret] at h; simp only at h; split at h <;> cases h
+          · exact finTh_ret_st _ _ c (by rw [← he]; exact h)
+        | park c =>
+          rw [hfin] at he
+          replace he : th' = finTh (.park c) { th0 with helpers := sigHelpers (segROf s.subj th0 op).out.sigs th0.helpers } := he
+          rw [finTh_park] at he
+          simp only [true_iff]
+          exact Or.inr ⟨c, by rw [he]⟩
+      · have hne : ¬ t = u := fun h => hut h.symm
+        simp only [hne, ite_false]
+        obtain ⟨thu, hthu, w⟩ := r.other_inv hut hth'
+        rw [blocked_thWake w]
+        exact hinv u thu hthu
+  | @other evs s s' a obs t hprev hen hs ha ih =>
+    obtain ⟨hb, hinv⟩ := ih
+    refine ⟨hb, ?_⟩
+    have hwf := hprev.reach.wf (initSys_wf init programs)
+    intro u th' hth'
+    rcases ha with rfl | rfl
+    · obtain ⟨th, hth, _, _, _, _, hself, hoth⟩ := step_cancel_rel hwf hen hs
+      by_cases hut : u = t
+      · subst hut; rw [hself] at hth'; cases hth'
+        exact hinv u th hth
+      · rw [hoth u hut] at hth'; exact hinv u th' hth'
+    · obtain ⟨th, h0, hth, _, _, _, hself, hoth⟩ := step_fire_rel hwf hs
+      by_cases hut : u = t
+      · subst hut; rw [hself] at hth'; cases hth'
+        rw [blocked_bwake]
+        exact hinv u th hth
+      · rw [hoth u hut] at hth'
+        cases h1 : s.ths[u]? with
+        | none => simp [h1] at hth'
+        | some x =>
+          simp [h1] at hth'; subst hth'
+          rw [blocked_bwake]
+          exact hinv u x h1
+
 end FunModel.Deque
